@@ -404,7 +404,7 @@ func PrintFile(f *File) string {
 	for ti := range f.Templates {
 		t := &f.Templates[ti]
 		b.WriteString("\n")
-		if !t.Header {
+		if !t.Header || t.BothDecls {
 			b.WriteString("/**\n")
 			for _, pd := range t.Params {
 				if pd.Optional {
@@ -423,7 +423,7 @@ func PrintFile(f *File) string {
 			b.WriteString(` private="true"`)
 		}
 		b.WriteString("}")
-		if t.Header {
+		if t.Header || t.BothDecls {
 			for _, pd := range t.Params {
 				if pd.Optional {
 					b.WriteString("{@param? " + pd.Name + ": ?}")
